@@ -16,6 +16,7 @@ import (
 	"math"
 	"reflect"
 	"sort"
+	"strconv"
 	"strings"
 	"time"
 	"unsafe"
@@ -488,8 +489,24 @@ func (g *vgen) walk(v reflect.Value, path string, commit func(), inRec bool) {
 		}
 		one.Index(0).Set(two.Index(0))
 		g.fill(two.Index(1), path)
-		g.addSlot(&vslot{path: path, kind: "slice", v: v, commit: commit, inRecords: inRec, alts: []valt{
-			{"nil", reflect.Zero(t), true}, {"empty", reflect.MakeSlice(t, 0, 0), true}, {"1", one, true}, {"2", two, true}}})
+		salts := []valt{{"nil", reflect.Zero(t), true}, {"empty", reflect.MakeSlice(t, 0, 0), true}, {"1", one, true}, {"2", two, true}}
+		switch t.Elem().Kind() {
+		case reflect.Int8, reflect.Int16, reflect.Int32, reflect.Int64, reflect.Bool:
+			// lists of scalars around the length at which the compact (uvarint n+1) prefix needs a second byte:
+			// an off-by-one in either pass of the encoder shows at 126, 127 or 128 elements
+			for _, n := range []int{126, 127, 128} {
+				l := reflect.MakeSlice(t, n, n)
+				for i := 0; i < n; i++ {
+					if t.Elem().Kind() == reflect.Bool {
+						l.Index(i).SetBool(i%3 == 0)
+					} else {
+						l.Index(i).SetInt(int64(i % 100))
+					}
+				}
+				salts = append(salts, valt{strconv.Itoa(n), l, true})
+			}
+		}
+		g.addSlot(&vslot{path: path, kind: "slice", v: v, commit: commit, inRecords: inRec, alts: salts})
 		for i := 0; i < v.Len(); i++ {
 			g.walk(v.Index(i), fmt.Sprintf("%s[%d]", path, i), commit, inRec)
 		}
